@@ -48,6 +48,10 @@ namespace NQ.Hub
 @[simp] theorem delivered_setThread (s : State) (tid : Nat) (th : Thread) : (setThread s tid th).delivered = s.delivered := rfl
 @[simp] theorem everOpen_setThread (s : State) (tid : Nat) (th : Thread) : (setThread s tid th).everOpen = s.everOpen := rfl
 @[simp] theorem remRemoved_setThread (s : State) (tid : Nat) (th : Thread) : (setThread s tid th).remRemoved = s.remRemoved := rfl
+@[simp] theorem live_setThread (s : State) (tid : Nat) (th : Thread) : (setThread s tid th).live = s.live := rfl
+@[simp] theorem cbMode_setThread (s : State) (tid : Nat) (th : Thread) : (setThread s tid th).cbMode = s.cbMode := rfl
+@[simp] theorem queued_setThread (s : State) (tid : Nat) (th : Thread) : (setThread s tid th).queued = s.queued := rfl
+@[simp] theorem popped_setThread (s : State) (tid : Nat) (th : Thread) : (setThread s tid th).popped = s.popped := rfl
 @[simp] theorem goto_pc (th : Thread) (pc : Pc) : (goto th pc).pc = pc := rfl
 @[simp] theorem goto_rest (th : Thread) (pc : Pc) : (goto th pc).rest = th.rest := rfl
 @[simp] theorem goto_res (th : Thread) (pc : Pc) : (goto th pc).res = th.res := rfl
@@ -590,5 +594,233 @@ theorem cbInv_step (k : Key) (s s' : State) (tid : Nat) (hinv : CbInv k s)
     (h : step s tid = some s') : CbInv k s' :=
   have hs := cb_shared_step k s s' tid hinv h
   ⟨cb_thr_step k s s' tid hinv h, cb_reg_step k s s' tid hinv h, hs.1, hs.2.1, hs.2.2⟩
+
+end NQ.Hub
+
+namespace NQ.Hub
+
+/-! ### The queue path is FIFO and exactly-once for EVERY key and EVERY program -/
+
+theorem queue_step (k : Key) (s s' : State) (tid : Nat) (own : ∀ t, OwnPc t (s.threads t).pc)
+    (hq : s.queued k = s.popped k ++ s.msgs k) (hg : gotOf k (s.threads k.1).res = s.popped k)
+    (h : step s tid = some s') :
+    s'.queued k = s'.popped k ++ s'.msgs k ∧ gotOf k (s'.threads k.1).res = s'.popped k := by
+  have hown := own tid
+  clear own
+  step_cases h s tid hpc
+  all_goals
+    simp only [threads_setThread, queued_setThread, popped_setThread, msgs_setThread]
+    rw [hpc] at hown
+    by_cases ht : k.1 = tid
+    · simp only [if_pos ht, goto_res, advance_res, gotOf_snoc, gotSel]
+      subst ht
+      first
+        | exact ⟨hq, hg⟩
+        | (simp only [List.append_nil]; exact ⟨hq, hg⟩)
+        | (rename_i kk mm
+           refine ⟨?_, by simpa using hg⟩
+           simp only [upd]; split
+           · rename_i e; rw [← e, hq, List.append_assoc]
+           · exact hq)
+        | (rename_i kk _ hd tl hm
+           by_cases hkk : kk = k
+           · subst hkk; simp [upd, hg, hq, hm]
+           · simp [upd, hkk, Ne.symm hkk, hg, hq])
+    · simp only [if_neg ht]
+      first
+        | exact ⟨hq, hg⟩
+        | (rename_i kk mm
+           refine ⟨?_, hg⟩
+           simp only [upd]; split
+           · rename_i e; rw [← e, hq, List.append_assoc]
+           · exact hq)
+        | (rename_i kk _ hd tl _
+           have hkk : k ≠ kk := by
+             intro e; subst e; simp [OwnPc, pcKey] at hown; exact ht hown
+           simp only [upd, if_neg hkk]; exact ⟨hq, hg⟩)
+
+end NQ.Hub
+
+namespace NQ.Hub
+
+/-! ### Keys that alternate between callback and plain incarnations
+
+Program hypothesis `LifeOk`: the owner never starts a `connect` of `k` while an earlier incarnation of `k`
+is still live (connect … disconnect … connect …; a disconnect is allowed at any time). -/
+
+def LifeOk (t : Nat) (k : Key) : Bool → List Op → Prop
+  | _, [] => True
+  | live, .connect rn id _ :: ops =>
+      if (t, rn, id) = k then live = false ∧ LifeOk t k true ops else LifeOk t k live ops
+  | live, .disconnect rn id :: ops =>
+      if (t, rn, id) = k then LifeOk t k false ops else LifeOk t k live ops
+  | live, .send _ _ _ :: ops => LifeOk t k live ops
+  | live, .recv _ _ _ :: ops => LifeOk t k live ops
+
+/-- value of `live k` when the operation the owner is executing completes -/
+def liveAfter (k : Key) (live : Bool) : Pc → Bool
+  | .cCbRecv k' | .cCbLost k' | .cOpen k' _ | .cRemote k' | .cWaitOpen k' | .cWaitRemote k' =>
+      if k' = k then true else live
+  | .dLock k' | .dLostGet k' | .dLostCall k' | .dOpenChk k' | .dOpenRm k' | .dRemChk k' | .dRemRm k'
+  | .dPopRecv k' | .dPopLost k' => if k' = k then false else live
+  | _ => live
+
+/-- what the owner's position implies about the registration state of `k` -/
+def pcFacts (k : Key) (live recv opn : Bool) : Pc → Prop
+  | .cCbRecv k' => k' = k → live = false
+  | .cCbLost k' => k' = k → live = true ∧ recv = true
+  | .cOpen k' true => k' = k → live = true ∧ recv = true
+  | .cOpen k' false => k' = k → live = false
+  | .cRemote k' | .cWaitOpen k' | .cWaitRemote k' => k' = k → live = true
+  | .dRemChk k' | .dRemRm k' | .dPopRecv k' => k' = k → opn = false
+  | .dPopLost k' => k' = k → opn = false ∧ recv = false
+  | _ => True
+
+structure ModeInv (k : Key) (s : State) : Prop where
+  life : LifeOk k.1 k (liveAfter k (s.live k) (s.threads k.1).pc) (s.threads k.1).rest
+  pcf : pcFacts k (s.live k) (s.recvCbs k) (s.open_ k) (s.threads k.1).pc
+  dead : s.live k = false → s.recvCbs k = false ∧ s.open_ k = false
+  mode : s.open_ k = true → s.recvCbs k = s.cbMode k
+
+theorem modeInv_init (k : Key) (progs : List (List Op)) (hk : LifeOk k.1 k false (progs.getD k.1 [])) :
+    ModeInv k (init progs) := by
+  refine ⟨?_, ?_, fun _ => ⟨rfl, rfl⟩, fun h => by simp [init] at h⟩
+  · show LifeOk k.1 k (liveAfter k false (startThread k.1 (progs.getD k.1 [])).pc)
+      (startThread k.1 (progs.getD k.1 [])).rest
+    unfold startThread
+    split
+    · simp [LifeOk]
+    · rename_i op ops heq
+      rw [heq] at hk
+      cases op with
+      | connect rn id cb =>
+        simp only [LifeOk] at hk
+        cases cb <;> simp only [entry, liveAfter, Bool.false_eq_true, if_false, if_true] <;>
+          split <;> simp_all
+      | send rn id m => simpa [LifeOk, entry, liveAfter] using hk
+      | recv rn id b => simpa [LifeOk, entry, liveAfter] using hk
+      | disconnect rn id =>
+        simp only [LifeOk] at hk
+        simp only [entry, liveAfter]
+        split <;> simp_all
+  · show pcFacts k false false false (startThread k.1 (progs.getD k.1 [])).pc
+    unfold startThread
+    split
+    · simp [pcFacts]
+    · rename_i op ops heq
+      cases op with
+      | connect rn id cb => cases cb <;> simp [entry, pcFacts]
+      | send rn id m => simp [entry, pcFacts]
+      | recv rn id b => simp [entry, pcFacts]
+      | disconnect rn id => simp [entry, pcFacts]
+
+
+theorem advance_mode (o : Nat) (k : Key) (L recv opn : Bool) (th : Thread) (r : Res)
+    (hl : LifeOk o k L th.rest) :
+    LifeOk o k (liveAfter k L (advance o th r).pc) (advance o th r).rest ∧
+    pcFacts k L recv opn (advance o th r).pc := by
+  rcases advance_spec o th r with ⟨h1, h2, _⟩ | ⟨op, ops, h0, h1, h2⟩
+  · rw [h1, h2]; simp [LifeOk, pcFacts]
+  · rw [h1, h2]; rw [h0] at hl
+    cases op with
+    | connect rn id cb =>
+      simp only [LifeOk] at hl
+      cases cb <;> simp only [entry, liveAfter, pcFacts, Bool.false_eq_true, if_false, if_true] <;>
+        split at hl <;> simp_all
+    | send rn id m => simpa [LifeOk, entry, liveAfter, pcFacts] using hl
+    | recv rn id b => simpa [LifeOk, entry, liveAfter, pcFacts] using hl
+    | disconnect rn id =>
+      simp only [LifeOk] at hl
+      simp only [entry, liveAfter, pcFacts]
+      split at hl <;> simp_all
+
+/-- a step of another thread than the owner of `k` leaves everything `ModeInv k` talks about unchanged -/
+theorem mode_frame (k : Key) (s s' : State) (tid : Nat) (own : ∀ t, OwnPc t (s.threads t).pc)
+    (ht : tid ≠ k.1) (h : step s tid = some s') :
+    s'.threads k.1 = s.threads k.1 ∧ s'.live k = s.live k ∧ s'.recvCbs k = s.recvCbs k ∧
+    s'.open_ k = s.open_ k ∧ s'.cbMode k = s.cbMode k := by
+  have hk : ∀ kk, pcKey (s.threads tid).pc = some kk → k ≠ kk :=
+    fun kk hkk e => ht (by subst e; exact (own tid k hkk).symm)
+  clear own
+  step_cases h s tid hpc
+  all_goals
+    have hk' := hk _ (by rw [hpc]; rfl)
+    simp only [threads_setThread, live_setThread, recvCbs_setThread, open__setThread, cbMode_setThread,
+      if_neg (Ne.symm ht)]
+    first
+      | exact ⟨rfl, rfl, rfl, rfl, rfl⟩
+      | (simp [upd, hk']; done)
+
+
+theorem mode_owner_step (k : Key) (s s' : State) (inv : ModeInv k s)
+    (h : step s k.1 = some s') : ModeInv k s' := by
+  obtain ⟨hlife, hpcf, hdead, hmode⟩ := inv
+  generalize ho : k.1 = o at h
+  step_cases h s o hpc
+  all_goals
+    subst ho
+    rw [hpc] at hlife hpcf
+    obtain ⟨kk, hkk⟩ : ∃ kk, pcKey (s.threads k.1).pc = some kk := by rw [hpc]; exact ⟨_, rfl⟩
+    rw [hpc] at hkk
+    simp only [pcKey, Option.some.injEq] at hkk
+    by_cases hk : kk = k
+  all_goals
+    have hsym : (k = kk) = (kk = k) := propext eq_comm
+    subst hkk
+    refine ⟨?_, ?_, ?_, ?_⟩
+  all_goals
+    simp only [threads_setThread, if_true, live_setThread, recvCbs_setThread, open__setThread, cbMode_setThread,
+      goto_pc, goto_rest]
+  all_goals first
+    | exact hlife
+    | exact hpcf
+    | exact hdead
+    | exact hmode
+    | (subst hk; simp_all [liveAfter, pcFacts, upd]; done)
+    | (simp_all [liveAfter, pcFacts, upd]; done)
+    | (refine (advance_mode k.1 k _ false false _ _ ?_).1
+       first
+         | (subst hk; simp_all [liveAfter, pcFacts, upd]; done)
+         | (simp_all [liveAfter, pcFacts, upd]; done))
+    | (refine (advance_mode _ _ _ _ _ _ _ ?_).2
+       first
+         | (subst hk; simp_all [liveAfter, pcFacts, upd]; done)
+         | (simp_all [liveAfter, pcFacts, upd]; done))
+    | (subst hk; rename_i cb; cases cb <;> simp_all [pcFacts, upd] <;> done)
+
+end NQ.Hub
+
+namespace NQ.Hub
+
+theorem modeInv_step (k : Key) (s s' : State) (tid : Nat) (own : ∀ t, OwnPc t (s.threads t).pc)
+    (inv : ModeInv k s) (h : step s tid = some s') : ModeInv k s' := by
+  by_cases ht : tid = k.1
+  · subst ht; exact mode_owner_step k s s' inv h
+  · obtain ⟨e1, e2, e3, e4, e5⟩ := mode_frame k s s' tid own ht h
+    obtain ⟨hl, hp, hd, hm⟩ := inv
+    exact ⟨by rw [e1, e2]; exact hl, by rw [e1, e2, e3, e4]; exact hp, by rw [e2, e3, e4]; exact hd,
+      by rw [e3, e4, e5]; exact hm⟩
+
+/-- `t` is an interleaving of `a` and `b` (built from the right, as the histories grow) -/
+inductive Shuffle : List Msg → List Msg → List Msg → Prop
+  | nil : Shuffle [] [] []
+  | left (a b t : List Msg) (m : Msg) (h : Shuffle a b t) : Shuffle (a ++ [m]) b (t ++ [m])
+  | right (a b t : List Msg) (m : Msg) (h : Shuffle a b t) : Shuffle a (b ++ [m]) (t ++ [m])
+
+/-- every sent message is either queued or handed to a callback, exactly once, order kept on each path -/
+theorem shuffle_step (k : Key) (s s' : State) (tid : Nat)
+    (hs : Shuffle (s.queued k) (s.cbStore k) (s.sent k)) (h : step s tid = some s') :
+    Shuffle (s'.queued k) (s'.cbStore k) (s'.sent k) := by
+  step_cases h s tid hpc
+  all_goals
+    simp only [queued_setThread, cbStore_setThread, sent_setThread]
+    first
+      | exact hs
+      | (simp only [upd]; split
+         · rename_i e; subst e; exact Shuffle.right _ _ _ _ hs
+         · exact hs)
+      | (simp only [upd]; split
+         · rename_i e; subst e; exact Shuffle.left _ _ _ _ hs
+         · exact hs)
 
 end NQ.Hub
